@@ -1,10 +1,11 @@
 #!/bin/bash
 # tools/runall.sh [quick|thorough] [seed]  — runs every claimed check sequentially and prints one line per check.
 TIER=${1:-quick}; SEED=${2:-1}
-cd /verif
+cd "$(dirname "$0")/.." || exit 2
+mkdir -p .build
 for p in $(python3 -c "import json;print(' '.join(c['property_id'] for c in json.load(open('MANIFEST.json'))['checks']))"); do
   s=$(date +%s)
-  VERIF_SEED=$SEED ./check $p $TIER > /tmp/runall-$p.log 2>&1; rc=$?
+  VERIF_SEED=$SEED ./check $p $TIER > .build/runall-$p.log 2>&1; rc=$?
   e=$(( $(date +%s) - s ))
-  echo "$p $TIER seed=$SEED exit=$rc ${e}s known=$(grep -c '^KNOWN-FINDING' /tmp/runall-$p.log) stale=$(grep -c '^STALE' /tmp/runall-$p.log) viol=$(grep -c '^VIOLATION' /tmp/runall-$p.log) incon=$(grep -c '^INCONCLUSIVE' /tmp/runall-$p.log)"
+  echo "$p $TIER seed=$SEED exit=$rc ${e}s known=$(grep -c '^KNOWN-FINDING' .build/runall-$p.log) stale=$(grep -c '^STALE' .build/runall-$p.log) viol=$(grep -c '^VIOLATION' .build/runall-$p.log) incon=$(grep -c '^INCONCLUSIVE' .build/runall-$p.log)"
 done
